@@ -3,6 +3,7 @@
 -/
 import ElfVerif.Props.C09
 import ElfVerif.Props.C03
+import ElfVerif.Lemmas.CommonData
 namespace Elf.C20
 open Elf.C09 Elf.C03
 
@@ -178,5 +179,225 @@ theorem dynamic_paths_agree (f : ElfBytes) (sh : SectionHeader) (ph : ProgramHea
           simpa [Out.bind] using hsec
         · simp [h2] at hsec
       · simp [h1] at hsec
+
+/-! ### one-pass common-data discovery = the targeted accessors
+
+  `find_common_data` is a fold of `commonStep` over the section headers in table order
+  (`commonScan_list`); each field is written only by headers of one kind, so after the fold it
+  holds the value computed from the *last* header of that kind (`fold_field`), while the targeted
+  accessors use the *first* (`iter().find`).  With at most one section of each kind the two
+  coincide. -/
+
+/-- at most one section of type `K` -/
+def AtMostOne (K : Nat) (l : List SectionHeader) : Prop := (l.filter fun sh => sh.sh_type == K).length ≤ 1
+
+/-- the result of `find_common_data`, field by field, in terms of the section pass's result -/
+theorem find_common_data_fields (f : ElfBytes) (cd : ElfBytes.CommonElfData) (h : f.findCommonData = .ok cd) :
+    ∃ res, f.sectionScan = .ok res ∧
+      cd.symtab = res.symtab ∧ cd.symtabStrs = res.symtabStrs ∧ cd.dynsyms = res.dynsyms ∧
+      cd.dynsymsStrs = res.dynsymsStrs ∧ cd.sysvHash = res.sysvHash ∧ cd.gnuHash = res.gnuHash ∧
+      (res.dynamic.isNone = false → cd.dynamic = res.dynamic) ∧
+      (res.dynamic.isNone = true → f.dynamicFromSegments = .ok cd.dynamic) := by
+  unfold ElfBytes.findCommonData at h
+  simp only [Out.bind] at h
+  cases hsc : f.sectionScan with
+  | err e => simp [hsc] at h
+  | panic => simp [hsc] at h
+  | ok res =>
+    simp only [hsc] at h
+    refine ⟨res, rfl, ?_⟩
+    by_cases hd : res.dynamic.isNone = true
+    · simp only [hd, if_true] at h
+      cases hseg : f.dynamicFromSegments with
+      | err e => simp [hseg] at h
+      | panic => simp [hseg] at h
+      | ok o =>
+        simp only [hseg] at h
+        cases o with
+        | none =>
+          simp only at h
+          injection h with h; subst h
+          refine ⟨rfl, rfl, rfl, rfl, rfl, rfl, ?_, ?_⟩
+          · intro hh; rw [hd] at hh
+          · intro _
+            cases hq : res.dynamic with
+            | none => rfl
+            | some x => rw [hq] at hd; simp at hd
+        | some t =>
+          simp only at h
+          injection h with h; subst h
+          refine ⟨rfl, rfl, rfl, rfl, rfl, rfl, ?_, ?_⟩
+          · intro hh; rw [hd] at hh; cases hh
+          · intro _; rfl
+    · simp only [hd] at h
+      injection h with h; subst h
+      exact ⟨rfl, rfl, rfl, rfl, rfl, rfl, fun _ => rfl, fun hh => absurd hh hd⟩
+
+/-- the section scan of `find_common_data` is the fold over the list of headers -/
+theorem common_scan_is_fold (f : ElfBytes) (t : Table SectionHeader) (l : List SectionHeader) (hl : Lists t l) :
+    f.commonScan t (t.data.len + 1) t.iter {} = foldOut (f.commonStep t) {} l := by
+  have hle : t.len ≤ t.data.len := Nat.div_le_self _ _
+  have := commonScan_list f hl l.length 0 (t.data.len + 1) {} (by omega) (by rw [hl.len]; omega)
+  rw [Table.iterAt_zero] at this
+  rw [this]; simp
+
+/-- **Symbol tables** (`K = SHT_SYMTAB` with `symbol_table()`, `K = SHT_DYNSYM` with
+    `dynamic_symbol_table()`): with at most one section of the kind, the targeted accessor returns
+    exactly the pair the one-pass discovery recorded. -/
+theorem common_symtab (f : ElfBytes) (t : Table SectionHeader) (l : List SectionHeader)
+    (hsh : f.shdrs = some t) (hl : Lists t l) (hu : AtMostOne Abi.SHT_SYMTAB l)
+    (cd : ElfBytes.CommonElfData) (h : f.findCommonData = .ok cd) :
+    f.symbolTable = .ok (match cd.symtab, cd.symtabStrs with
+                         | some a, some b => some (a, b)
+                         | _, _ => none) := by
+  obtain ⟨res, hscan, e1, e2, _⟩ := find_common_data_fields f cd h
+  simp only [ElfBytes.sectionScan, hsh] at hscan
+  rw [common_scan_is_fold f t l hl] at hscan
+  have hfield := fold_field f t (fun c => (c.symtab, c.symtabStrs)) Abi.SHT_SYMTAB
+    (fun x v => ∃ strShdr r, t.get x.sh_link = .ok strShdr ∧ f.sectionDataAsSymbolTable x strShdr = .ok r ∧
+      v = (some r.1, some r.2)) (step_symtab f t) l {} res hscan
+  rw [lastOfType_eq_find _ l hu] at hfield
+  unfold ElfBytes.symbolTable ElfBytes.symbolTableOfType
+  simp only [hsh]
+  rw [hl.find]
+  simp only [Out.bind]
+  cases hfind : l.find? (fun sh => sh.sh_type == Abi.SHT_SYMTAB) with
+  | none =>
+    simp only [hfind] at hfield ⊢
+    injection hfield with h1 h2
+    rw [e1, e2, h1, h2]
+  | some sh =>
+    simp only [hfind] at hfield ⊢
+    obtain ⟨strShdr, r, g1, g2, g3⟩ := hfield
+    injection g3 with h1 h2
+    rw [g1]; simp only; rw [g2]; simp only
+    rw [e1, e2, h1, h2]
+
+theorem common_dynsym (f : ElfBytes) (t : Table SectionHeader) (l : List SectionHeader)
+    (hsh : f.shdrs = some t) (hl : Lists t l) (hu : AtMostOne Abi.SHT_DYNSYM l)
+    (cd : ElfBytes.CommonElfData) (h : f.findCommonData = .ok cd) :
+    f.dynamicSymbolTable = .ok (match cd.dynsyms, cd.dynsymsStrs with
+                                | some a, some b => some (a, b)
+                                | _, _ => none) := by
+  obtain ⟨res, hscan, _, _, e1, e2, _⟩ := find_common_data_fields f cd h
+  simp only [ElfBytes.sectionScan, hsh] at hscan
+  rw [common_scan_is_fold f t l hl] at hscan
+  have hfield := fold_field f t (fun c => (c.dynsyms, c.dynsymsStrs)) Abi.SHT_DYNSYM
+    (fun x v => ∃ strShdr r, t.get x.sh_link = .ok strShdr ∧ f.sectionDataAsSymbolTable x strShdr = .ok r ∧
+      v = (some r.1, some r.2)) (step_dynsym f t) l {} res hscan
+  rw [lastOfType_eq_find _ l hu] at hfield
+  unfold ElfBytes.dynamicSymbolTable ElfBytes.symbolTableOfType
+  simp only [hsh]
+  rw [hl.find]
+  simp only [Out.bind]
+  cases hfind : l.find? (fun sh => sh.sh_type == Abi.SHT_DYNSYM) with
+  | none =>
+    simp only [hfind] at hfield ⊢
+    injection hfield with h1 h2
+    rw [e1, e2, h1, h2]
+  | some sh =>
+    simp only [hfind] at hfield ⊢
+    obtain ⟨strShdr, r, g1, g2, g3⟩ := hfield
+    injection g3 with h1 h2
+    rw [g1]; simp only; rw [g2]; simp only
+    rw [e1, e2, h1, h2]
+
+/-- **Dynamic table, found through its section**: with exactly one `SHT_DYNAMIC` section, `dynamic()`
+    returns the table the one-pass discovery recorded. -/
+theorem common_dynamic_section (f : ElfBytes) (t : Table SectionHeader) (l : List SectionHeader)
+    (hsh : f.shdrs = some t) (hl : Lists t l) (hu : AtMostOne Abi.SHT_DYNAMIC l)
+    (sh : SectionHeader) (hex : l.find? (fun sh => sh.sh_type == Abi.SHT_DYNAMIC) = some sh)
+    (cd : ElfBytes.CommonElfData) (h : f.findCommonData = .ok cd) :
+    f.dynamic = .ok cd.dynamic := by
+  obtain ⟨res, hscan, _, _, _, _, _, _, e1, _⟩ := find_common_data_fields f cd h
+  simp only [ElfBytes.sectionScan, hsh] at hscan
+  rw [common_scan_is_fold f t l hl] at hscan
+  have hfield := fold_field f t (fun c => c.dynamic) Abi.SHT_DYNAMIC
+    (fun x v => ∃ d, f.sectionDataAsDynamic x = .ok d ∧ v = some d) (step_dynamic f t) l {} res hscan
+  rw [lastOfType_eq_find _ l hu, hex] at hfield
+  obtain ⟨d, g1, g2⟩ := hfield
+  unfold ElfBytes.dynamic
+  simp only [hsh]
+  rw [hl.find, hex]
+  simp only [Out.bind, g1]
+  rw [e1 (by rw [g2]; rfl), g2]
+
+/-- **Dynamic table, found through `PT_DYNAMIC`**: without a `SHT_DYNAMIC` section the discovery
+    falls back to the segment, and records what `dynamic()` returns on the same file read without
+    its section header table. -/
+theorem common_dynamic_segment (f : ElfBytes) (t : Table SectionHeader) (l : List SectionHeader)
+    (hsh : f.shdrs = some t) (hl : Lists t l)
+    (hno : l.find? (fun sh => sh.sh_type == Abi.SHT_DYNAMIC) = none)
+    (cd : ElfBytes.CommonElfData) (h : f.findCommonData = .ok cd) :
+    f.dynamicFromSegments = .ok cd.dynamic ∧
+    (⟨f.ehdr, f.data, none, f.phdrs⟩ : ElfBytes).dynamic = .ok cd.dynamic := by
+  obtain ⟨res, hscan, _, _, _, _, _, _, _, e2⟩ := find_common_data_fields f cd h
+  simp only [ElfBytes.sectionScan, hsh] at hscan
+  rw [common_scan_is_fold f t l hl] at hscan
+  have hu : AtMostOne Abi.SHT_DYNAMIC l := by
+    unfold AtMostOne
+    have : (l.filter fun sh => sh.sh_type == Abi.SHT_DYNAMIC) = [] := by
+      rw [List.filter_eq_nil_iff]
+      intro a ha hp
+      exact (List.find?_eq_none.mp hno) a ha hp
+    rw [this]; simp
+  have hfield := fold_field f t (fun c => c.dynamic) Abi.SHT_DYNAMIC
+    (fun x v => ∃ d, f.sectionDataAsDynamic x = .ok d ∧ v = some d) (step_dynamic f t) l {} res hscan
+  rw [lastOfType_eq_find _ l hu, hno] at hfield
+  simp only at hfield
+  have := e2 (by rw [hfield]; rfl)
+  exact ⟨this, this⟩
+
+/-- **Hash tables**: the recorded SysV / GNU hash table is `new` applied to the bytes of the one
+    `SHT_HASH` / `SHT_GNU_HASH` section (what a caller gets from `section_data` + `new`). -/
+theorem common_sysv_hash (f : ElfBytes) (t : Table SectionHeader) (l : List SectionHeader)
+    (hsh : f.shdrs = some t) (hl : Lists t l) (hu : AtMostOne Abi.SHT_HASH l)
+    (cd : ElfBytes.CommonElfData) (h : f.findCommonData = .ok cd) :
+    match l.find? (fun sh => sh.sh_type == Abi.SHT_HASH) with
+    | none => cd.sysvHash = none
+    | some x => ∃ r buf tbl, dataRange x.sh_offset x.sh_size = .ok r ∧ f.data.getBytes r.1 r.2 = .ok buf ∧
+        SysVHashTable.new f.ehdr.little f.ehdr.cls buf = .ok tbl ∧ cd.sysvHash = some tbl := by
+  obtain ⟨res, hscan, _, _, _, _, e1, _⟩ := find_common_data_fields f cd h
+  simp only [ElfBytes.sectionScan, hsh] at hscan
+  rw [common_scan_is_fold f t l hl] at hscan
+  have hfield := fold_field f t (fun c => c.sysvHash) Abi.SHT_HASH
+    (fun x v => ∃ r buf tbl, dataRange x.sh_offset x.sh_size = .ok r ∧ f.data.getBytes r.1 r.2 = .ok buf ∧
+        SysVHashTable.new f.ehdr.little f.ehdr.cls buf = .ok tbl ∧ v = some tbl) (step_sysv f t) l {} res hscan
+  rw [lastOfType_eq_find _ l hu] at hfield
+  rw [e1]
+  cases hfind : l.find? (fun sh => sh.sh_type == Abi.SHT_HASH) with
+  | none => simp only [hfind] at hfield ⊢; exact hfield
+  | some x => simp only [hfind] at hfield ⊢; exact hfield
+
+theorem common_gnu_hash (f : ElfBytes) (t : Table SectionHeader) (l : List SectionHeader)
+    (hsh : f.shdrs = some t) (hl : Lists t l) (hu : AtMostOne Abi.SHT_GNU_HASH l)
+    (cd : ElfBytes.CommonElfData) (h : f.findCommonData = .ok cd) :
+    match l.find? (fun sh => sh.sh_type == Abi.SHT_GNU_HASH) with
+    | none => cd.gnuHash = none
+    | some x => ∃ r buf tbl, dataRange x.sh_offset x.sh_size = .ok r ∧ f.data.getBytes r.1 r.2 = .ok buf ∧
+        GnuHashTable.new f.ehdr.little f.ehdr.cls buf = .ok tbl ∧ cd.gnuHash = some tbl := by
+  obtain ⟨res, hscan, _, _, _, _, _, e1, _⟩ := find_common_data_fields f cd h
+  simp only [ElfBytes.sectionScan, hsh] at hscan
+  rw [common_scan_is_fold f t l hl] at hscan
+  have hfield := fold_field f t (fun c => c.gnuHash) Abi.SHT_GNU_HASH
+    (fun x v => ∃ r buf tbl, dataRange x.sh_offset x.sh_size = .ok r ∧ f.data.getBytes r.1 r.2 = .ok buf ∧
+        GnuHashTable.new f.ehdr.little f.ehdr.cls buf = .ok tbl ∧ v = some tbl) (step_gnu f t) l {} res hscan
+  rw [lastOfType_eq_find _ l hu] at hfield
+  rw [e1]
+  cases hfind : l.find? (fun sh => sh.sh_type == Abi.SHT_GNU_HASH) with
+  | none => simp only [hfind] at hfield ⊢; exact hfield
+  | some x => simp only [hfind] at hfield ⊢; exact hfield
+
+/-- the hypothesis `Lists t l` is met by every section header table `minimal_parse` builds -/
+theorem lists_exist (t : Table SectionHeader) (hep : t.ep = SectionHeader.ep) (hlen : t.data.len < 2 ^ 63) :
+    ∃ l, Lists t l := by
+  have hr : Regular t.ep t.cls := by rw [hep]; exact regular_SectionHeader _
+  obtain ⟨items, h1, _, _⟩ := collect_eq_gets t hr hlen
+  exact ⟨items, lists_of_collect t hr hlen items h1⟩
+
+/-- Without the "at most one section of each kind" premise the two paths genuinely differ (last
+    versus first): `lastOfType` and `find?` disagree on two sections of the same type. -/
+example : lastOfType 2 [⟨0,2,0,0,0,0,0,0,0,0⟩, ⟨1,2,0,0,0,0,0,0,0,0⟩] ≠
+    [⟨0,2,0,0,0,0,0,0,0,0⟩, ⟨1,2,0,0,0,0,0,0,0,0⟩].find? (fun (sh : SectionHeader) => sh.sh_type == 2) := by decide
 
 end Elf.C20
